@@ -72,10 +72,25 @@ def default_bound(I):
     return '[%s,%s]' % (fnum(I[0]), fnum(I[1]))
 
 
-def pr(f, bound=default_bound, names=None):
-    """fully parenthesised keyword spelling"""
+def _atomic(f):
     op = f[0]
-    P = lambda g: pr(g, bound, names)
+    if op in ('var', 'ref', 'abs', 'sqrt', 'exp', 'ln', 'pow', 'log', 'rise', 'fall'):
+        return True
+    if op == 'const':
+        return isinstance(f[1], str) or f[1] >= 0
+    return False
+
+
+def pr(f, bound=default_bound, names=None):
+    """keyword spelling in which every composite operand is parenthesised (no reliance on precedence)"""
+    op = f[0]
+
+    def P(g):
+        t = pr(g, bound, names)
+        return t if _atomic(g) else '(' + t + ')'
+
+    def A(g):  # function-call argument: the call's own parentheses delimit it
+        return pr(g, bound, names)
     if op == 'var':
         return f[1]
     if op == 'ref':
@@ -84,30 +99,42 @@ def pr(f, bound=default_bound, names=None):
         v = f[1]
         if isinstance(v, str):
             return v
-        return fnum(v) if v >= 0 else '(-%s)' % fnum(-v)
+        return fnum(v) if v >= 0 else '-%s' % fnum(-v)
     if op == 'pred':
-        return '((%s) %s (%s))' % (P(f[2]), f[1], P(f[3]))
+        return '%s %s %s' % (P(f[2]), f[1], P(f[3]))
     if op in ARITH2:
-        return '((%s) %s (%s))' % (P(f[1]), op, P(f[2]))
+        return '%s %s %s' % (P(f[1]), op, P(f[2]))
     if op == 'neg':
-        return '(-(%s))' % P(f[1])
+        return '-%s' % P(f[1])
     if op in ('abs', 'sqrt', 'exp', 'ln'):
-        return '%s(%s)' % (op, P(f[1]))
+        return '%s(%s)' % (op, A(f[1]))
     if op in ARITHF2:
-        return '%s(%s,%s)' % (op, P(f[1]), P(f[2]))
+        return '%s(%s,%s)' % (op, A(f[1]), A(f[2]))
     if op in ('not', 'prev', 's_prev', 'next', 's_next'):
-        return '(%s (%s))' % (op, P(f[1]))
+        return '%s %s' % (op, P(f[1]))
     if op in ('rise', 'fall'):
-        return '%s(%s)' % (op, P(f[1]))
+        return '%s(%s)' % (op, A(f[1]))
     if op in BIN_B:
-        return '((%s) %s (%s))' % (P(f[1]), op, P(f[2]))
+        return '%s %s %s' % (P(f[1]), op, P(f[2]))
     if op in UN_T:
         b = '' if f[1] is None else bound(f[1])
-        return '(%s%s (%s))' % (op, b, P(f[2]))
+        return '%s%s %s' % (op, b, P(f[2]))
     if op in BIN_T:
         b = '' if f[1] is None else bound(f[1])
-        return '((%s) %s%s (%s))' % (P(f[2]), op, b, P(f[3]))
+        return '%s %s%s %s' % (P(f[2]), op, b, P(f[3]))
     raise ValueError(op)
+
+
+_LEAF = None
+
+
+def slim(text):
+    """drop the parentheses around bare identifiers and unsigned literals: '((x) >= (0))' -> '(x >= 0)'"""
+    global _LEAF
+    if _LEAF is None:
+        import re
+        _LEAF = re.compile(r'(?<![A-Za-z0-9_])\(([A-Za-z_][A-Za-z0-9_]*|[0-9]+(?:\.[0-9]+)?)\)')
+    return _LEAF.sub(r'\1', text)
 
 
 def fvars(f, acc=None):
@@ -161,6 +188,16 @@ def is_temporal_unbounded_future(f):
 
 def past_only(f):
     return not has_op(f, FUTURE)
+
+
+def max_bound(f):
+    """largest interval bound of any temporal operator in f (at least 1)"""
+    m = 1
+    for g in subforms(f):
+        I = interval(g)
+        if I is not None:
+            m = max(m, int(I[1]))
+    return m
 
 
 def max_past_bound(f):
